@@ -750,6 +750,7 @@ func (u *UnitGen) anchoredAsserts(fr *Frame, st *State, file string, line int) {
 		gu.Hits++
 		env := fr.env.withState(st)
 		env.fr = fr
+		env.atAnchor = true
 		v := env.eval(gu.E)
 		if _, declared := u.g.specs.GhostVars[gu.Var]; declared {
 			// update of a declared ghost variable (part of the unit's state: framed, havoced by loops)
@@ -772,6 +773,7 @@ func (u *UnitGen) anchoredAsserts(fr *Frame, st *State, file string, line int) {
 		a.Hits++
 		env := fr.env.withState(st)
 		env.fr = fr
+		env.atAnchor = true
 		name := a.Label
 		if name == "" {
 			name = fmt.Sprint(i + 1)
